@@ -9,9 +9,14 @@
   * FITS range payload: big-endian words and (start, end) pairing are inverted exactly, the padding
     makes the byte count a multiple of 2880;
   * NUNIQ payload: code/decode identity (C05 theorems re-exported).
-  Partial: fold widths, `start+len` notation, JSON text, the streaming ASCII variant and the FITS
-  header cards are exercised by the correspondence run on real bytes (direct round-trip checks), not
-  modelled; the link "cells of the writer cover exactly M" is C05's cell view (correspondence-checked).
+  * character level (session 5): decimal printing / lexing, so that reading the CHARACTERS written for any
+    valid MOC returns `(depth, MOC)` (`ascii_text_lex`, `ascii_text_roundtrip_moc`);
+  * the whole FITS file (session 5): header cards, data unit, padding — 2880-byte blocks, `NAXIS1 × NAXIS2`
+    = the data written, which decode to the ranges (`fits_file_blocks`, `fits_file_structure`,
+    `fits_nuniq_file`); constants extracted from the source (`fits_constants`).
+  Partial: fold widths, `start+len` notation, the JSON reader (serde_json), the streaming ASCII variant and the
+  FITS header READER beyond the two structural cards are exercised by the correspondence run on real bytes
+  (the real reader against the model reader on folded / offset documents; direct round trips), not proved.
 -/
 import MocVerif.Lemmas.Codec
 import MocVerif.Lemmas.Cells
